@@ -103,10 +103,12 @@ def gen_case(rng, tier):
         cols = [[_dec(rng, c - 2, c + 2) if rng.random() < 0.9 else f"{c:.3f}" for _ in range(n)] for c in centers]
         if rng.random() < 0.1:      # repeated replicate values (ties in the order statistics)
             cols = [[rng.choice(col[:3]) for _ in col] for col in cols]
-        return {"kind": "stats", "what": what, "cols": cols, "orig": [_dec(rng, c - 1, c + 1) for c in centers],
+        case = {"kind": "stats", "what": what, "cols": cols, "orig": [_dec(rng, c - 1, c + 1) for c in centers],
                 "names": pick_names(rng, p), "rep_perm": [maybe_perm(rng, p, 0.3) for _ in range(n)],
                 "orig_perm": maybe_perm(rng, p, 0.5),
                 "ofvs": [_dec(rng, -50, 50, 2) for _ in range(n)], "seed": rng.randrange(1 << 30)}
+        add_missing(rng, case)
+        return case
     if what == "cdd":
         p = rng.randint(1, 3)
         n = rng.choice([p + 2, 5, 8, 13, 30, nmax])
@@ -124,8 +126,54 @@ def gen_case(rng, tier):
             "seed": rng.randrange(1 << 30)}
 
 
+def add_missing(rng, case):
+    """Faults in single replicates (by construction, ~45 % of the bootstrap cases): replicates whose estimation failed
+    (all estimates and the OFV are NaN), single estimates missing, OFVs missing, and a dOFV step (bootstrap model on the
+    original data) whose results are partially missing (None or NaN OFV).  A missing value is the text "nan"."""
+    cols, n, p = case["cols"], len(case["cols"][0]), len(case["cols"])
+    r = rng.random()
+    if r < 0.25:        # failed replicates
+        k = rng.randint(1, max(1, n // 4))
+        for i in rng.sample(range(n), min(k, n - 1) if rng.random() < 0.9 else k):
+            for col in cols:
+                col[i] = "nan"
+            case["ofvs"][i] = "nan"
+        case["missing"] = "failed-replicates"
+    elif r < 0.35:      # single estimates missing (a parameter not reported by one replicate)
+        hit = False
+        for col in cols:
+            for i in range(n):
+                if rng.random() < 0.12:
+                    col[i] = "nan"
+                    hit = True
+        if not hit:
+            cols[rng.randrange(p)][rng.randrange(n)] = "nan"
+        case["missing"] = "single-estimates"
+    elif r < 0.42:      # OFV of some replicates missing, estimates present
+        for i in rng.sample(range(n), rng.randint(1, max(1, n // 3))):
+            case["ofvs"][i] = "nan"
+        case["missing"] = "ofv-only"
+    if rng.random() < 0.4:
+        case["orig_ofv"] = _dec(rng, -50, 50, 2)
+        dofv = []
+        for i in range(n):
+            t = rng.random()
+            dofv.append(None if t < 0.1 else "nan" if t < 0.2 else _dec(rng, -50, 50, 2))
+        if rng.random() < 0.3:
+            dofv = [_dec(rng, -50, 50, 2) for _ in range(n)]
+        case["dofv"] = dofv
+
+
 def corpus_cases():
     return [
+        # seed C19f: one failed replicate (NaN estimates, NaN OFV) and a partially missing dOFV step
+        {"kind": "stats", "what": "bootstrap", "cols": [["1.0", "1.25", "nan", "1.75", "2.0", "2.25", "2.5"],
+                                                          ["2.0", "2.5", "nan", "0.5", "1.0", "1.5", "-1.0"]],
+         "orig": ["1.5", "2.5"], "ofvs": ["0", "1", "nan", "3", "4", "5", "6"], "names": ["POP_CL", "POP_VC"],
+         "orig_ofv": "2.5", "dofv": ["1", None, "2", "nan", "3.5", "0.25", "7"], "missing": "failed-replicates", "seed": 108},
+        # a single estimate missing; two valid replicates only in one column
+        {"kind": "stats", "what": "bootstrap", "cols": [["1.0", "nan", "1.5"], ["nan", "2.5", "nan"]],
+         "orig": ["1.5", "2.5"], "ofvs": ["0", "1", "2"], "names": ["THETA(1)", "OMEGA(1,1)"], "missing": "single-estimates", "seed": 109},
         # D4 (fixed f1a9548): base estimate / covariance labelled in another order than the estimate columns
         {"kind": "stats", "what": "cdd", "cols": [["-1.366", "-0.307", "0.158", "0.897", "1.004"], ["-3.614", "-3.904", "-1.316", "-4.886", "-1.262"],
                                                     ["39.432", "39.114", "39.442", "39.408", "38.506"]],
@@ -162,8 +210,9 @@ def shrink(case):
             for i in range(n):
                 c = dict(case)
                 c["cols"] = [col[:i] + col[i + 1:] for col in case["cols"]]
-                if "ofvs" in case:
-                    c["ofvs"] = case["ofvs"][:i] + case["ofvs"][i + 1:]
+                for key in ("ofvs", "dofv", "rep_perm"):
+                    if case.get(key):
+                        c[key] = case[key][:i] + case[key][i + 1:]
                 if "drop" in case:
                     c["drop"] = [d % (n - 1) for d in case["drop"]]
                 yield c
@@ -181,6 +230,17 @@ def shrink(case):
                     if key in case:
                         c[key] = [None] * len(case[key]) if key == "rep_perm" else None
                 yield c
+    if case["what"] == "bootstrap":
+        if case.get("dofv"):
+            yield {k: v for k, v in case.items() if k != "dofv"}
+        for j, col in enumerate(case["cols"]):
+            for i, x in enumerate(col):
+                if x == "nan" and any(y != "nan" for y in col):
+                    c = dict(case)
+                    c["cols"] = [list(cc) for cc in case["cols"]]
+                    c["cols"][j][i] = next(y for y in col if y != "nan")
+                    yield c
+                    break
     if case["what"] == "delta":
         e = case["expr"]
         if e[0] not in ("s", "c"):
@@ -207,14 +267,18 @@ def worker_init():
 
 
 def dq(text):
+    if text is None or text == "nan":
+        return "nan"
     f = Fraction(text)
     return str(f.numerator) if f.denominator == 1 else f"{f.numerator}/{f.denominator}"
 
 
 def same(a, b, scale):
-    """code float vs model Fraction/str."""
-    b = float(Fraction(b))
+    """code float vs model Fraction/str ("nan" = missing on both sides)."""
     a = float(a)
+    if b == "nan":
+        return math.isnan(a)
+    b = float(Fraction(b))
     if math.isnan(a) or math.isinf(a):
         return False
     return abs(a - b) <= 1e-9 * max(scale, abs(a), abs(b), 1e-300)
@@ -321,6 +385,26 @@ def run_delta(case, drv):
     return {"k": k, "mon": mon, "tags": tags, "nontrivial": len(syms) >= 2}
 
 
+def _close(got, want, tol):
+    """reported value vs reference; missing (NaN) must be missing on both sides."""
+    got, want = float(got), float(want)
+    if math.isnan(want) or math.isnan(got):
+        return math.isnan(want) and math.isnan(got)
+    return abs(got - want) <= tol
+
+
+def _ref_column(x):
+    """defining formulas on the valid (non-NaN) estimates of one column: statistics dict, distribution list."""
+    v = np.array([t for t in x if not math.isnan(t)], dtype=float)
+    nan = float("nan")
+    if len(v) == 0:
+        return {"mean": nan, "median": nan, "stderr": nan}, [nan] * len(DIST_COLS), v
+    refd = [np.min(v)] + [np.quantile(v, q) for q in QS] + [np.max(v)]
+    refd[5] = np.median(v)
+    return ({"mean": np.mean(v), "median": np.median(v), "stderr": np.std(v, ddof=1) if len(v) >= 2 else nan},
+            refd, v)
+
+
 def run_bootstrap(case, drv):
     k, mon = [], []
     cols = [[float(x) for x in col] for col in case["cols"]]
@@ -330,58 +414,114 @@ def run_bootstrap(case, drv):
     tags.append("bootstrap-" + lexical(names))
     rp = case.get("rep_perm") or [None] * n
     op = case.get("orig_perm") or list(range(p))
+    ofv_in = [float(x) for x in case["ofvs"]]
+    missing = any(math.isnan(x) for col in cols for x in col)
+    tags.append("bootstrap-missing=" + case.get("missing", "none"))
+    nvalid = [sum(1 for x in col if not math.isnan(x)) for col in cols]
+    if missing:
+        tags.append("bootstrap-min-valid=" + ("0" if min(nvalid) == 0 else "1" if min(nvalid) == 1 else ">=2"))
 
     def ser(vals, perm):
         perm = perm or list(range(p))
         return pd.Series([vals[j] for j in perm], index=[names[j] for j in perm])
     if any(rp) or case.get("orig_perm"):
         tags.append("bootstrap-label-order-varies")
-    results = [ModelfitResults(ofv=float(case["ofvs"][i]), parameter_estimates=ser([cols[j][i] for j in range(p)], rp[i]))
+    results = [ModelfitResults(ofv=ofv_in[i], parameter_estimates=ser([cols[j][i] for j in range(p)], rp[i]))
                for i in range(n)]
-    orig = ModelfitResults(ofv=1.0, parameter_estimates=ser([float(x) for x in case["orig"]], op))
-    res = boot.calculate_results(None, results, original_results=orig)
+    orig_ofv = float(case.get("orig_ofv", "1"))
+    orig = ModelfitResults(ofv=orig_ofv, parameter_estimates=ser([float(x) for x in case["orig"]], op))
+    dofv = case.get("dofv")
+    dofv_results = None
+    if dofv is not None:
+        dofv_results = [None if x is None else ModelfitResults(ofv=float(x)) for x in dofv]
+        tags.append("bootstrap-dofv=" + ("partial" if any(x is None or x == "nan" for x in dofv) else "complete"))
+    res = boot.calculate_results(None, results, original_results=orig, dofv_results=dofv_results)
     st, dist, cov = res.parameter_statistics, res.parameter_distribution, res.covariance_matrix
-    if sorted(st.index) != sorted(names) or sorted(cov.index) != sorted(names) or list(cov.index) != list(cov.columns):
-        mon.append({"cls": "bootstrap-labels", "what": f"statistics labelled {list(st.index)}, covariance {list(cov.index)} x {list(cov.columns)}; parameters {names}"})
+    if sorted(st.index) != sorted(names) or sorted(cov.index) != sorted(names) or list(cov.index) != list(cov.columns) \
+            or sorted(dist.index) != sorted(names):
+        mon.append({"cls": "bootstrap-labels", "what": f"statistics labelled {list(st.index)}, distribution {list(dist.index)}, "
+                    f"covariance {list(cov.index)} x {list(cov.columns)}; parameters {names}"})
+        return {"k": k, "mon": mon, "tags": tags, "nontrivial": True}
+    if list(dist.columns) != DIST_COLS:
+        mon.append({"cls": "bootstrap-distribution-columns", "what": f"parameter_distribution columns {list(dist.columns)}, documented {DIST_COLS}"})
         return {"k": k, "mon": mon, "tags": tags, "nontrivial": True}
     cov = cov.loc[names, names]
     arr = np.array(cols)
     for j, nm in enumerate(names):
-        scale = max(abs(x) for x in cols[j]) or 1.0
-        x = arr[j]
-        ref = {"mean": np.mean(x), "median": np.median(x), "bias": np.mean(x) - float(case["orig"][j]),
-               "stderr": np.std(x, ddof=1)}
-        for key, want in ref.items():
-            if not abs(st.loc[nm, key] - want) <= 1e-9 * scale:
-                mon.append({"cls": "bootstrap-" + key, "what": f"{key} of {nm}: {st.loc[nm, key]}, numpy reference {want}"})
-        if abs(ref["mean"]) > 1e-6 * scale and not abs(st.loc[nm, "RSE"] - ref["stderr"] / ref["mean"]) <= 1e-9 * abs(ref["stderr"] / ref["mean"]) + 1e-12:
-            mon.append({"cls": "bootstrap-rse", "what": f"RSE of {nm}: {st.loc[nm, 'RSE']}, reference {ref['stderr'] / ref['mean']}"})
-        refd = [np.min(x)] + [np.quantile(x, q) for q in QS] + [np.max(x)]
-        refd[5] = np.median(x)
+        ref, refd, v = _ref_column(cols[j])
+        scale = (float(np.max(np.abs(v))) if len(v) else 0.0) or 1.0
+        sfx = "-missing-replicates" if nvalid[j] < n else ""
+        where = f" (evaluated on the {nvalid[j]} valid of {n} replicates)" if sfx else ""
+        ref["bias"] = ref["mean"] - float(case["orig"][j])
+        for key in ("mean", "median", "bias", "stderr"):
+            if not _close(st.loc[nm, key], ref[key], 1e-9 * scale):
+                mon.append({"cls": "bootstrap-" + key + sfx, "what": f"{key} of {nm}: {st.loc[nm, key]}, numpy reference {ref[key]}{where}"})
+        if len(v) >= 2 and abs(ref["mean"]) > 1e-6 * scale and \
+                not _close(st.loc[nm, "RSE"], ref["stderr"] / ref["mean"], 1e-9 * abs(ref["stderr"] / ref["mean"]) + 1e-12):
+            mon.append({"cls": "bootstrap-rse" + sfx, "what": f"RSE of {nm}: {st.loc[nm, 'RSE']}, reference {ref['stderr'] / ref['mean']}{where}"})
         for cname, want in zip(DIST_COLS, refd):
-            if not abs(dist.loc[nm, cname] - want) <= 1e-9 * scale:
-                mon.append({"cls": "bootstrap-percentile", "what": f"{cname} of {nm}: {dist.loc[nm, cname]}, numpy reference {want}"})
-    refc = np.cov(arr, ddof=1).reshape(p, p)
-    if not np.allclose(cov.values, refc, rtol=1e-9, atol=1e-9 * float(np.max(np.abs(arr))) ** 2):
-        mon.append({"cls": "bootstrap-covariance", "what": f"covariance matrix {cov.values.tolist()}, numpy reference {refc.tolist()}"})
+            if not _close(dist.loc[nm, cname], want, 1e-9 * scale):
+                mon.append({"cls": "bootstrap-percentile" + sfx, "what": f"{cname} of {nm}: {dist.loc[nm, cname]}, numpy reference {want}{where}"})
+    if not missing:
+        refc = np.cov(arr, ddof=1).reshape(p, p)
+        if not np.allclose(cov.values, refc, rtol=1e-9, atol=1e-9 * float(np.max(np.abs(arr))) ** 2):
+            mon.append({"cls": "bootstrap-covariance", "what": f"covariance matrix {cov.values.tolist()}, numpy reference {refc.tolist()}"})
+    # the OFV table: same routine (create_distribution) on columns that are partially or entirely missing
+    nan = float("nan")
+    dv = [nan] * n if dofv is None else [nan if x is None else float(x) for x in dofv]
+    ofv_cols = {"bootstrap_bootdata_ofv": ofv_in, "original_bootdata_ofv": [nan] * n, "bootstrap_origdata_ofv": dv,
+                "original_origdata_ofv": [orig_ofv] * n, "delta_bootdata": [nan] * n,
+                "delta_origdata": [x - orig_ofv for x in dv]}
+    od, os_ = res.ofv_distribution, res.ofv_statistics
+    if sorted(od.index) != sorted(ofv_cols) or sorted(os_.index) != sorted(ofv_cols) or list(od.columns) != DIST_COLS:
+        mon.append({"cls": "bootstrap-ofv-labels", "what": f"ofv_distribution {list(od.index)} x {list(od.columns)}, ofv_statistics {list(os_.index)}"})
+    else:
+        for cname_, x in ofv_cols.items():
+            ref, refd, v = _ref_column(x)
+            scale = (float(np.max(np.abs(v))) if len(v) else 0.0) or 1.0
+            where = f" (evaluated on the {len(v)} valid of {n} values)"
+            for key in ("mean", "median", "stderr"):
+                if not _close(os_.loc[cname_, key], ref[key], 1e-9 * scale):
+                    mon.append({"cls": "bootstrap-ofv-" + key, "what": f"{key} of {cname_}: {os_.loc[cname_, key]}, numpy reference {ref[key]}{where}"})
+            for q, want in zip(DIST_COLS, refd):
+                if not _close(od.loc[cname_, q], want, 1e-9 * scale):
+                    mon.append({"cls": "bootstrap-ofv-percentile", "what": f"{q} of {cname_}: {od.loc[cname_, q]}, numpy reference {want}{where}"})
     if drv is not None:
-        ans = drv.ask(["bootstrap", [[dq(x) for x in col] for col in case["cols"]], [dq(x) for x in case["orig"]]])
+        if missing:
+            ans = drv.ask(["bootstrapm", [[dq(x) for x in col] for col in case["cols"]], [dq(x) for x in case["orig"]]])
+        else:
+            ans = drv.ask(["bootstrap", [[dq(x) for x in col] for col in case["cols"]], [dq(x) for x in case["orig"]]])
         for j, nm in enumerate(names):
-            scale = max(abs(x) for x in cols[j]) or 1.0
+            scale = max([abs(x) for x in cols[j] if not math.isnan(x)] or [0.0]) or 1.0
             m = ans[0][j]
             pairs = [("mean", st.loc[nm, "mean"], m[0], scale), ("median", st.loc[nm, "median"], m[1], scale),
                      ("bias", st.loc[nm, "bias"], m[2], scale), ("stderr^2", st.loc[nm, "stderr"] ** 2, m[3], scale * scale)]
-            if abs(st.loc[nm, "mean"]) > 1e-6 * scale:
+            if abs(st.loc[nm, "mean"]) > 1e-6 * scale and nvalid[j] >= 2:
                 pairs.append(("RSE^2", st.loc[nm, "RSE"] ** 2, m[4], (scale / st.loc[nm, "mean"]) ** 2))
             pairs += [(cname, dist.loc[nm, cname], mv, scale) for cname, mv in zip(DIST_COLS, m[5])]
             for label, cv, mv, sc in pairs:
                 if not same(cv, mv, sc):
-                    k.append(f"bootstrap {label} of {nm}: model {float(Fraction(mv))} code {cv}")
+                    k.append(f"bootstrap {label} of {nm}: model {mv if mv == 'nan' else float(Fraction(mv))} code {cv}")
         for a in range(p):
             for b in range(p):
-                sc = (max(abs(x) for x in cols[a]) or 1.0) * (max(abs(x) for x in cols[b]) or 1.0)
+                sc = (max([abs(x) for x in cols[a] if not math.isnan(x)] or [0.0]) or 1.0) * \
+                     (max([abs(x) for x in cols[b] if not math.isnan(x)] or [0.0]) or 1.0)
                 if not same(cov.values[a][b], ans[1][a][b], sc):
-                    k.append(f"bootstrap covariance[{a}][{b}]: model {float(Fraction(ans[1][a][b]))} code {cov.values[a][b]}")
+                    mv = ans[1][a][b]
+                    k.append(f"bootstrap covariance[{a}][{b}]: model {mv if mv == 'nan' else float(Fraction(mv))} code {cov.values[a][b]}")
+        if "bootstrap-ofv-labels" not in [m_["cls"] for m_ in mon]:
+            onames = list(ofv_cols)
+            wire = [[_fr(x) if not math.isnan(x) else "nan" for x in ofv_cols[c]] for c in onames]
+            anso = drv.ask(["bootstrapm", wire, ["0"] * len(onames)])
+            for c, m in zip(onames, anso[0]):
+                v = [abs(x) for x in ofv_cols[c] if not math.isnan(x)]
+                scale = max(v or [0.0]) or 1.0
+                pairs = [("mean", os_.loc[c, "mean"], m[0], scale), ("median", os_.loc[c, "median"], m[1], scale),
+                         ("stderr^2", os_.loc[c, "stderr"] ** 2, m[3], scale * scale)]
+                pairs += [(q, od.loc[c, q], mv, scale) for q, mv in zip(DIST_COLS, m[5])]
+                for label, cv, mv, sc in pairs:
+                    if not same(cv, mv, sc):
+                        k.append(f"bootstrap ofv table {label} of {c}: model {mv if mv == 'nan' else float(Fraction(mv))} code {cv}")
     return {"k": k, "mon": mon, "tags": tags, "nontrivial": n >= 3}
 
 
